@@ -59,6 +59,7 @@ def V(vid):
         'f0.5': lambda: 0.5, 'f7': lambda: 7.0,
         'i3': lambda: 3, 'i5': lambda: 5, 'np6': lambda: np.int64(6), 'i2': lambda: 2, 'f2.999': lambda: 2.999,
         'nf2.75': lambda: np.float32(2.75), 'f2next': lambda: float(np.nextafter(2.0, 3.0)),
+        'qarr1': lambda: [3] * u.deg, 'qarr11': lambda: [[3]] * u.arcsec, 'arr1': lambda: np.array([2.0]),
         'q1sr': lambda: 1 * u.sr, 'qdeg2': lambda: 2 * u.deg ** 2, 'qas2': lambda: 3 * u.arcsec ** 2,
         'qdegps': lambda: 1 * u.deg / u.s, 'q1s': lambda: 1 * u.s, 'qpdeg': lambda: 1 / u.deg,
         'zero': lambda: 0, 'fzero': lambda: 0.0, 'neg': lambda: -1, 'fneg': lambda: -0.5, 'nan': lambda: float('nan'),
@@ -103,7 +104,7 @@ def V(vid):
 KINDS = {
     'pixsize': (['i1', 'f2.5', 'np3', 'npi4'],
                 ['zero', 'fzero', 'neg', 'fneg', 'nan', 'inf', 'ninf', 'npnan', 'str3', 'none', 'list1', 'tup1',
-                 'arr1d', 'q1deg', 'q1m', 'qdimless', 'q1pix', 'q1sr'],
+                 'arr1d', 'arr1', 'q1deg', 'q1m', 'qdimless', 'q1pix', 'q1sr'],
                 ['arr0d', 'true']),
     # number of vertices of a regular polygon: documented as >= 3
     'nvert': (['i5', 'i3', 'np6'],
@@ -111,7 +112,7 @@ KINDS = {
               ['arr0d', 'true', 'f7']),
     'skysize': (['q1deg', 'q2.5as', 'a3am', 'q.01rad'],
                 ['i1', 'f2.5', 'q0deg', 'qneg', 'qnan', 'qinf', 'q1m', 'qarr', 'str3', 'none', 'qdimless', 'q1pix', 'list1',
-                 'q1sr', 'qdeg2', 'qas2', 'qdegps', 'q1s', 'qpdeg'],
+                 'q1sr', 'qdeg2', 'qas2', 'qdegps', 'q1s', 'qpdeg', 'qarr1', 'qarr11'],
                 []),
     'pixcenter': (['pix12', 'pixf', 'pix00'],
                   ['pixarr2', 'pixarr1', 'pix2d', 'sky1', 'tup12', 'none', 'strx', 'arr1d'], []),
@@ -120,7 +121,7 @@ KINDS = {
     'pixverts': (['pixv3', 'pixv4', 'pixv5'], ['pix12', 'pix2d', 'skyv3', 'none', 'listpairs', 'arr1d'], []),
     'skyverts': (['skyv3', 'skyv4'], ['sky1', 'sky2d', 'pixv3', 'none', 'listpairs'], []),
     'angle': (['q30deg', 'q1rad', 'a45', 'q0deg', 'qm10am'],
-              ['f30', 'i30', 'q1m', 'qarr', 'str30deg', 'none', 'qdimless', 'q1pix', 'q1sr', 'qdeg2', 'qas2', 'qdegps', 'q1s', 'qpdeg'], []),
+              ['f30', 'i30', 'q1m', 'qarr', 'str30deg', 'none', 'qdimless', 'q1pix', 'q1sr', 'qdeg2', 'qas2', 'qdegps', 'q1s', 'qpdeg', 'qarr1', 'qarr11'], []),
     'meta': (['d_label', 'rm_inc', 'd_tag', 'd_empty'], ['d_bogus', 'd_mixed', 'l_pairs', 'strx', 'int5', 'rv_color'], ['none']),
     'visual': (['d_color', 'rv_color', 'd_lw', 'd_empty'], ['d_bogus', 'strx', 'int5', 'd_label'], ['none']),
     'pixregion': (['reg_pix', 'reg_pix2'], ['reg_sky', 'none', 'strx', 'int5', 'pix12'], []),
@@ -407,6 +408,11 @@ def check_ctor_misc(res):
         ('mask_shape_mismatch', lambda: RegionMask(np.ones((2, 3)), RegionBoundingBox(0, 2, 0, 3)), True),
         ('mask_shape_mismatch_1d', lambda: RegionMask(np.ones(6), RegionBoundingBox(0, 3, 0, 2)), True),
         ('mask_ok', lambda: RegionMask(np.ones((3, 2)), RegionBoundingBox(0, 2, 0, 3)), False),
+        ('mask_3d_leading_axes_match', lambda: RegionMask(np.ones((3, 2, 4)), RegionBoundingBox(0, 2, 0, 3)), True),
+        ('mask_3d_trailing_one', lambda: RegionMask(np.ones((3, 2, 1)), RegionBoundingBox(0, 2, 0, 3)), True),
+        ('mask_1d_rows_match', lambda: RegionMask(np.ones(3), RegionBoundingBox(0, 2, 0, 3)), True),
+        ('mask_0d', lambda: RegionMask(np.float64(1.0), RegionBoundingBox(0, 2, 0, 3)), True),
+        ('mask_list_ok', lambda: RegionMask([[1, 0], [0, 1], [1, 1]], RegionBoundingBox(0, 2, 0, 3)), False),
         ('bbox_float', lambda: RegionBoundingBox(0.5, 2, 0, 3), True),
         ('bbox_integral_float', lambda: RegionBoundingBox(0, 2.0, 0, 3), True),
         ('bbox_0d_int_array', lambda: RegionBoundingBox(np.array(1), 2, 0, 3), True),
